@@ -38,6 +38,19 @@ class _TStr(Ty):
     def wrap(self, terms): return VStr(terms[0])
 
 
+class _TKey2(_TStr):
+    """a pair of strings used as ONE value (a dictionary key, a stored tuple): represented by an opaque token key2(a, b) of
+    string sort that is injective in its components (key2_fst / key2_snd are its inverses, asserted where a pair is stored)"""
+
+
+def key2(a, b):
+    return z3.Function('key2', StringSort, StringSort, StringSort)(a, b)
+
+
+def key2_inverse_facts(t, a, b):
+    return z3.And(z3.Function('key2_fst', StringSort, StringSort)(t) == a, z3.Function('key2_snd', StringSort, StringSort)(t) == b)
+
+
 class _TBytes(Ty):
     def comps(self): return [('', StringSort)]
     def wrap(self, terms): return VBytes(terms[0])
@@ -68,6 +81,7 @@ class _TDyn(Ty):
 
 
 INT, BOOL, STR, BYTES, NONE, OPAQUE, DYN = _TInt(), _TBool(), _TStr(), _TBytes(), _TNone(), _TOpaque(), _TDyn()
+KEY2 = _TKey2()
 CHUNKS = _TChunks()
 
 
